@@ -83,8 +83,8 @@ func checkE2E(t ev.TB, c E2E, labels ...string) {
 	}
 	ev.Case(nt, c, append(labels, "e2e", fmt.Sprintf("nodes:%d", c.Nodes))...)
 	if f != nil && f.inconclusive {
-		ev.Count("inconclusive_cases", 1)
-		t.Fatalf("VERIF-INCONCLUSIVE %s", f.msg)
+		ev.Inconclusive(t, f.msg)
+		return
 	}
 	if f != nil {
 		ev.Fail(t, "retained-e2e", c, "%s", f.msg)
